@@ -17,7 +17,8 @@ THEOREMS = ['Fsic.C19.' + n for n in [
     'linker_tables_false_at_witness', 'from_dataframe_roundtrip', 'from_dataframe_roundtrip_id',
     'symbols_roundtrip_of_decoderOk', 'decoderOk_of_symbols_roundtrip', 'symbols_roundtrip_iff_decoderOk',
     'installed_coercion_observed', 'codeDecoder_ok_of_markers', 'codeDecoder_ok', 'symbols_roundtrip',
-    'symbols_roundtrip_iff_validTypes']]
+    'symbols_roundtrip_iff_validTypes', 'codeDecoder_preserves_strings', 'present_strings_roundtrip',
+    'symbols_roundtrip_strings', 'toPy_injective', 'normalising_decoder_breaks_roundtrip']]
 RULE = ('random model scripts (1-5 equations; lags/leads, {parameters}, <errors>, exp/log/max/min/abs/np.sqrt, '
         'conditional expressions with keywords, fenced verbatim blocks, multi-line statements) built with '
         'parse_model + build_model; instances over span types range / list of str / list of int / mixed hashables / '
@@ -33,13 +34,27 @@ RULE = ('random model scripts (1-5 equations; lags/leads, {parameters}, <errors>
         'only, functions, keywords, single symbol, ...): oracle + three-way comparison real output == model output '
         '== original list; plus contiguous sub-lists / reversals of those (three-way comparison only: not parser '
         'output, covered by the theorem). '
+        'Edge whitespace: scripts whose fenced blocks have trailing blanks / tabs, whitespace-only first / last lines, '
+        'whitespace-only or empty bodies, CR/LF line ends, opening fences with trailing blanks, and equations with '
+        'trailing blanks (kept only as edge cases when the PARSER OUTPUT really carries \'\' or leading / trailing '
+        'whitespace in a str field: counted under symbols-edge:parser:*), plus hand-built Symbol lists = every string '
+        'of a 23-string alphabet (x, " x", "x ", tab/newline/CR variants, " ", "", "a b", "nan", NUL, NBSP ...) in each of '
+        'name / equation / code of a verbatim / endogenous / function symbol, alone, next to None rows (mixed column, '
+        'both orders), next to another str, duplicated, with the other str fields None (all-missing columns), all '
+        'ordered pairs of a 9-string alphabet per column, and random lists over the alphabet (oracle + three-way '
+        'comparison; the oracle compares every str field character by character and by type, so \'\' vs None and '
+        '"x " vs "x" are told apart: keys symbols-roundtrip-str-altered / -str-lost / -tuple-neq). str-valued model '
+        'variables with edge-whitespace cells, variable names (column labels) and span labels (list / NumPy / pandas '
+        'Index) with edge whitespace or \'\' go through the same table oracles. '
         'distinct = distinct (instance recipe, entry point, flags) resp. distinct symbol list; non-trivial = at least '
         'one variable and one period resp. a non-empty list')
 TRUSTED = ['pandas (DataFrame construction from a dict of arrays / a list of dicts, Index construction from the span, '
            'dtype inference, None->NaN coercion, column assignment, iterrows, DataFrame.items) is OUTSIDE the Lean '
            'model and only observed: its missing-value coercion enters the theorems through the reflected table '
            'Fsic.Generated.pandasCoercion (harness/reflect_tools.py), dtype preservation is checked on the real '
-           'DataFrame by the oracle only',
+           'DataFrame by the oracle only; string identity of present cells (incl. \'\' and strings with edge whitespace) '
+           'is probed on the installed pandas by harness/reflect_tools.py (str_*_full/_mixed/_alone = "same") and enters '
+           'installed_coercion_observed through presentAsModelled',
            'NumPy astype(float) on int/bool cells equals Lean Float.ofInt (driver instance of the cast)',
            'cells and span labels cross to the Lean driver as opaque tokens (floats as IEEE bit patterns)']
 ASSUMPTIONS = ['variable names are distinct and none is called status/iterations (the constructor and add_variable '
@@ -56,7 +71,7 @@ ASSUMPTIONS = ['variable names are distinct and none is called status/iterations
                '(the property is silent); the Lean theorems state what the code does (appended last, linker first)']
 
 META = {
-    "text": "Theorems for every store (any variables, span, cell type), flag combination, linker and symbol list: exported columns = model-order names (underscore-prefixed iff requested) ++ status? ++ iterations?, no duplicates, index = span, one cell per period, each column holds exactly its series; container export = index order; linker export = one table per submodel plus the linker's, keyed correctly (guard: linker name not a submodel key; count theorem without the guard); from_dataframe on any export reproduces span and the cast of every class variable (identity for float models); symbols_roundtrip: for EVERY symbol list, with the reflected coercion of the installed pandas, the code's decoder (is_missing = None or float NaN -> None in name/lags/leads/equation/code, int(field) otherwise for lags/leads) returns the original list (iff every type is a Type member); in general the round trip holds for every list IFF the decoder maps the coercion's missing markers back to None in every optional field, which the code's decoder does for any coercion whose markers are None/NaN. Tied to fsic/tools.py, BaseModel.from_dataframe, VectorContainer.to_dataframe by exact comparison of tables (cells as IEEE bits) on generated models/linkers/symbol lists; symbol round trips compared three ways (real output == model output == original list).",
+    "text": "Theorems for every store (any variables, span, cell type), flag combination, linker and symbol list: exported columns = model-order names (underscore-prefixed iff requested) ++ status? ++ iterations?, no duplicates, index = span, one cell per period, each column holds exactly its series; container export = index order; linker export = one table per submodel plus the linker's, keyed correctly (guard: linker name not a submodel key; count theorem without the guard); from_dataframe on any export reproduces span and the cast of every class variable (identity for float models); symbols_roundtrip: for EVERY symbol list, with the reflected coercion of the installed pandas, the code's decoder (is_missing = None or float NaN -> None in name/lags/leads/equation/code, int(field) otherwise for lags/leads) returns the original list (iff every type is a Type member); in general the round trip holds for every list IFF the decoder maps the coercion's missing markers back to None in every optional field, which the code's decoder does for any coercion whose markers are None/NaN. String identity: codeDecoder_preserves_strings (for EVERY string s a present str cell decodes to s itself in name/equation/code: is_missing never fires on a str, '' and whitespace-only included), present_strings_roundtrip (under ANY coercion, whenever the round trip returns, it returns one symbol per input symbol and every present str field unchanged), symbols_roundtrip_strings (installed pandas: it does return), toPy_injective ('' and None, 'x ' and 'x' are different values of the model, so equality with the original list is field-exact), normalising_decoder_breaks_roundtrip (a decoder that alters even one string in one str field fails on a one-symbol list). Tied to fsic/tools.py, BaseModel.from_dataframe, VectorContainer.to_dataframe by exact comparison of tables (cells as IEEE bits) on generated models/linkers/symbol lists; symbol round trips compared three ways (real output == model output == original list), including parser outputs and hand-built lists whose str fields are '' or carry leading/trailing/only whitespace (strings cross to the driver JSON-escaped and come back exactly).",
     "design_ref": "DESIGN.md §5 M8, §6 C19, §7 row 15",
     "note": "Partial: pandas is outside the model (DataFrame/Index construction, dtype inference, None->NaN coercion, iterrows) - observed through the reflected table and by the oracle (dtype preservation). The two symbols round-trip findings (NaN for a missing name/equation/code; TypeError when every lags/leads entry is None) are fixed by fsic 56f842e: their oracle keys remain and a regression under them is a VIOLATION. Open known finding on the unchanged tree: a None span label is exported as NaN (df-index-none-label-nan). Trusted: Lean kernel, standard axioms, the correspondence harness.",
     "technique": "Lean 4 proof (induction over insertion-ordered dicts and symbol lists, decide on reflected tables) + differential correspondence check + property oracle on the real DataFrames"
@@ -190,7 +205,7 @@ CATALOGUE = [
 ]
 
 SPAN_KINDS = ['range', 'liststr', 'listint', 'mixed', 'npint', 'npstr', 'pdint', 'pdstr', 'periodA', 'periodQ',
-              'datetime']
+              'datetime', 'wsstr', 'npwsstr', 'pdwsstr']
 
 
 def make_span(kind, n, o):
@@ -217,6 +232,9 @@ def make_span(kind, n, o):
         return pd.period_range(start=f'{2000 + o}Q1', periods=n, freq='Q')
     if kind == 'datetime':
         return pd.date_range(start=f'20{10 + o:02d}-01-01', periods=n, freq='D')
+    if kind in ('wsstr', 'npwsstr', 'pdwsstr'):
+        labels = [WS_LABELS[(o + i) % len(WS_LABELS)] for i in range(n)]
+        return labels if kind == 'wsstr' else np.array(labels, dtype=str) if kind == 'npwsstr' else pd.Index(labels)
     raise ValueError(kind)
 
 
@@ -225,6 +243,16 @@ DTYPES = {'int': int, 'bool': bool, 'str': str, 'float': float, 'int32': np.int3
           'float32': np.float32}
 EXTRA_NAMES = ['_hid', '_', '__p', '_X1', 'Nn', 'Bb', 'Ss', 'Ff', 'q_', 'U_1', '_9']
 STRS = ['x', '', 'nan', 'zz top', 'é', '-', 'None', 'A_b']
+# str cells with edge whitespace (values must come back exactly: no stripping anywhere on the way to the table)
+WS_STRS = [' x', 'x ', '\tx', 'x\t', 'x\n', '\nx', ' ', '\n', '\t', ' x ', 'x\r\n', ' \n\t ', 'x  ', 'a b ']
+# variable names (= column labels) with edge whitespace; ' _h' does not start with '_' (not internal), '_ h' does
+WS_NAMES = [' x', 'x ', '\tq', 'q\n', ' ', '', ' _h', '_ h', 'a b', ' x ']
+# span labels (= index labels) with edge whitespace
+WS_LABELS = [' a', 'a ', '\tb', 'b\n', ' ', '', 'a b', '\n', ' \t ', 'c\r\n', ' a ']
+
+
+def has_edge_ws(x):
+    return isinstance(x, str) and (x == '' or x != x.strip())
 
 
 def gen_extra_values(rng, dt, n):
@@ -241,7 +269,8 @@ def gen_extra_values(rng, dt, n):
     elif dt == 'bool':
         vals = [rng.random() < 0.5 for _ in range(k)]
     elif dt == 'str':
-        vals = [rng.choice(STRS) for _ in range(k)]
+        pool = STRS + WS_STRS if rng.random() < 0.5 else STRS
+        vals = [rng.choice(pool) for _ in range(k)]
     elif dt == 'float32':
         vals = [rng.choice([0.0, 1.5, -2.0, 0.25, 1024.0, float('nan')]) for _ in range(k)]
     else:
@@ -256,8 +285,9 @@ def gen_recipe(rng, script, names):
     for v in names:
         if rng.random() < 0.6:
             rec['init'][v] = [bits(rng.choice(FLOATS)) for _ in range(n)] if rng.random() < 0.7 else bits(rng.choice(FLOATS))
-    for nm in rng.sample(EXTRA_NAMES, rng.choice([0, 1, 2, 3, 4, 5])):
-        dt = rng.choice(list(DTYPES))
+    pool = EXTRA_NAMES + WS_NAMES if rng.random() < 0.3 else EXTRA_NAMES
+    for nm in rng.sample(pool, rng.choice([0, 1, 2, 3, 4, 5])):
+        dt = rng.choice(list(DTYPES) + (['str'] * 3 if nm in WS_NAMES else []))
         rec['extras'].append([nm, dt, gen_extra_values(rng, dt, n)])
     if rng.random() < 0.55:
         rec['solve'] = {'max_iter': rng.choice([1, 3, 20]), 'errors': rng.choice(['ignore', 'skip', 'replace'])}
@@ -445,8 +475,14 @@ def classify_symbol_diff(orig, back):
                         out.add('missing-str-nan')
                     elif y is not None:
                         out.add('str-none-not-restored')
-                elif not isinstance(y, str) or y != x:
+                elif y is None or (isinstance(y, float) and y != y):
+                    out.add('str-lost')          # a present str ('' included: '' is not None) came back missing
+                elif not isinstance(y, str):
                     out.add('str-value')
+                elif str(y) != x or len(y) != len(x):
+                    # same type, other characters: compared character by character, so 'x ' vs 'x', '' vs ' ',
+                    # '\t' vs ' ' are all told apart
+                    out.add('str-altered')
     return out
 
 
@@ -471,6 +507,13 @@ def oracle_symbols(ss, back, exc, rep, case):
         return 'symbols-roundtrip-length'
     diff = classify_symbol_diff(ss, back)
     if not diff:
+        try:
+            same = bool(back == ss) and all(tuple(b) == tuple(a) for a, b in zip(ss, back))
+        except Exception:  # noqa: BLE001
+            same = False
+        if not same:
+            violate(rep, 'symbols-roundtrip-tuple-neq', f'round trip returned {back!r} != {ss!r}', case)
+            return 'symbols-roundtrip-tuple-neq'
         return 'ok'
     if diff == {'missing-str-nan'}:
         key = KNOWN_STR_NAN
@@ -576,8 +619,14 @@ def one_model(ctx, rep, rec, M, m, items, ft_items, rng):
     rep.dist['span:' + rec['span'][0]] += 1
     rep.dist['solved' if rec['solve'] else 'unsolved'] += 1
     rep.dist['n_extras:%d' % len(rec['extras'])] += 1
-    for _, dt, _ in rec['extras']:
+    for nm, dt, spec in rec['extras']:
         rep.dist['extra-dtype:' + dt] += 1
+        if has_edge_ws(nm):
+            rep.dist['edge-ws:column-label'] += 1
+        if dt == 'str' and any(has_edge_ws(v) for v in spec['vals']):
+            rep.dist['edge-ws:str-cell-variable'] += 1
+    if rec['span'][0] in ('wsstr', 'npwsstr', 'pdwsstr') and rec['span'][1]:
+        rep.dist['edge-ws:span-labels'] += 1
     if not names_ok(m):
         rep.dist['names-guard-broken'] += 1
         rep.notes.append(f'instance with duplicate/reserved variable names: {list(m.names)}')
@@ -656,7 +705,7 @@ SUB_KEYS = ['A', 'B', 'uk', 1, 2, 'L']
 def gen_linker_recipe(rng, scripts):
     nsub = rng.choice([0, 1, 2, 2, 3])
     # BaseLinker compares submodel spans with `!=`, which only yields a bool for plain sequences
-    kind = rng.choice(SPAN_KINDS if nsub <= 1 else ['range', 'liststr', 'listint', 'mixed'])
+    kind = rng.choice(SPAN_KINDS if nsub <= 1 else ['range', 'liststr', 'listint', 'mixed', 'wsstr'])
     n = rng.choice([1, 2, 3, 4, 5])
     o = rng.randint(0, 3)
     keys = rng.sample(SUB_KEYS, nsub)
@@ -782,12 +831,14 @@ def run_linkers(ctx, rep, n_linkers, scripts):
             rep.disagree('linker_to_dataframes: model != impl', case, model, impl)
 
 
-def symbol_lists(rng, scripts, n_sub):
-    """[(symbol list, origin, in_quantifier)]: parser outputs (in the property's quantifier: oracle + comparison)
-    and contiguous sub-lists / reversals of them (not parser output: comparison only — the theorem covers them)."""
+def symbol_lists(rng, scripts, n_sub, built=()):
+    """[(symbol list, origin, in_quantifier)]: parser outputs (in the property's quantifier: oracle + comparison),
+    hand-built lists with edge whitespace / '' in the str fields (`built`: the neighbourhood of the parser's output,
+    oracle + comparison) and contiguous sub-lists / reversals of parser outputs (comparison only — the theorem covers
+    them)."""
     out = []
     seen = set()
-    for script in list(CATALOGUE) + scripts:
+    for script in list(CATALOGUE) + list(scripts):
         try:
             with warnings.catch_warnings():
                 warnings.simplefilter('ignore')
@@ -812,6 +863,12 @@ def symbol_lists(rng, scripts, n_sub):
             continue
         seen.add(key)
         out.append((sub, {'kind': 'symbols-sub', 'script': origin['script'], 'slice': [i, j], 'symbols': sym_in(sub)}, False))
+    for ss, tag in built:
+        key = repr(ss)
+        if key in seen:
+            continue
+        seen.add(key)
+        out.append((ss, {'kind': 'symbols-built', 'origin': tag, 'symbols': sym_in(ss)}, True))
     return out
 
 
@@ -826,23 +883,160 @@ def symbols_shape(ss):
             out.append(f + ':all-missing')
     return out
 
+# ---- symbol lists whose str fields carry edge whitespace / are '' ---------------------------------------------------
 
-def run_symbols(ctx, rep, scripts, n_sub):
+# bodies of fenced verbatim blocks (the parser builds `code = equation.strip('`\r\n')`: blanks and tabs at the edges of
+# the body, whitespace-only first / last lines and a whitespace-only body all survive; a body of newlines only gives '')
+EDGE_BODIES = ['x = 1  ', 'x = 1\t', 'x = 1 \t ', '   \nx = 1', '\t\nx = 1', 'x = 1\n   ', 'x = 1\n\t', '  ', '\t', ' \t ',
+               '', '\n', ' \n ', ' \n\t\nz = 2\n \n ', 'x = 1 \r', 'x = 1\t\r\n', 'if x:\n    y = 1\n  ', 'q = [1,\n     2] ',
+               'x = 1\n\n  ', 'import math ', 'pass\t', '  x = 1', '\tx = 1', ' x = 1 ', 'x = 1\x0c ', 'x = 1 # c  ']
+EDGE_FENCES = ['```', '````', '``` ', '```\t']          # an opening fence with trailing blanks leaves them in `code`
+EDGE_TAILS = [' ', '  ', '\t', ' \t', ' \r']             # appended to an equation line (kept as ONE trailing blank)
+# strings for hand-built symbols: each in each str field
+EDGE_ALPHABET = ['x', ' x', 'x ', '\tx', 'x\t', 'x\n', '\nx', ' ', '', '\n', '\t', 'a b', ' x ', 'x\r\n', '\r', ' \n\t ',
+                 'x  ', '```\nz = 1 \n```', 'nan', 'None', '\x0b', '\u2003x\u00a0', 'x\x00']
+EDGE_SMALL = ['x', ' x', 'x ', '\tx', 'x\n', ' ', '', '\n', 'a b']
+STR_FIELDS = ('name', 'equation', 'code')
+
+
+def edge_kinds(ss):
+    """{'field:position:char'} for every str field of the list that is '' or starts / ends with whitespace."""
+    out = set()
+    names = {' ': 'space', '\t': 'tab', '\n': 'nl', '\r': 'cr'}
+    for sym in ss:
+        for f in STR_FIELDS:
+            v = getattr(sym, f)
+            if not isinstance(v, str):
+                continue
+            if v == '':
+                out.add(f + ':empty')
+            elif v.strip() == '':
+                out.add(f + ':ws-only:' + '+'.join(sorted({names.get(ch, 'other') for ch in v})))
+            else:
+                if v != v.lstrip():
+                    out.add(f + ':leading:' + names.get(v[0], 'other'))
+                if v != v.rstrip():
+                    out.add(f + ':trailing:' + names.get(v[-1], 'other'))
+    return out
+
+
+def edge_scripts(rng, n_random):
+    """Scripts whose parser output may carry edge whitespace: every EDGE_BODY in a fenced block (alone, between
+    equations, with CRLF line ends, after a fence with trailing blanks), equations with trailing blanks, and random
+    scripts decorated with both."""
+    out = []
+    for b in EDGE_BODIES:
+        for fence in EDGE_FENCES:
+            block = f'{fence}\n{b}\n{fence.strip()}'
+            out.append(block)
+            if fence == '```':
+                out.append('Y = X\n' + block + '\nZ = Y[-1]')
+                out.append(block.replace('\n', '\r\n'))
+                out.append(block + '\n' + block)
+                out.append('```\nz = 1\n```\n' + block)
+    for t in EDGE_TAILS:
+        out += ['Y = X' + t, 'Y = C + I' + t + '\nC = 0.5 * Y[-1]', 'Y = (C +\n     I)' + t, 'Y = exp(X)' + t + '\n```\npass \n```',
+                'Y = X' + t + '\r\nZ = Y' + t]
+    for _ in range(n_random):
+        lines = gen_script(rng).split('\n')
+        deco = []
+        in_block = False
+        for ln in lines:
+            if ln.startswith('```'):
+                in_block = not in_block
+            elif in_block:
+                if rng.random() < 0.6:
+                    ln = rng.choice(EDGE_BODIES[:21])
+            elif ln and not ln.startswith(' ') and not ln.endswith('+') and ln.count('(') == ln.count(')') and rng.random() < 0.4:
+                ln = ln + rng.choice(EDGE_TAILS)
+            deco.append(ln)
+        for _ in range(rng.choice([0, 1, 1, 2])):
+            deco.insert(rng.randint(0, len(deco)) if not in_block else len(deco),
+                        '```\n' + rng.choice(EDGE_BODIES[:21]) + '\n```')
+        out.append(rng.choice(['\n', '\n', '\r\n']).join('\n'.join(deco).split('\n')))
+    return out
+
+
+def _sym(template, **kw):
+    d = dict(template)
+    d.update(kw)
+    return Symbol(**d)
+
+
+EDGE_TEMPLATES = {
+    'verbatim': dict(name=None, type=Type.VERBATIM, lags=None, leads=None, equation='```\nz = 1\n```', code='z = 1'),
+    'endogenous': dict(name='Y', type=Type.ENDOGENOUS, lags=-1, leads=0, equation='Y[t] = Y[t-1]', code='self._Y[t] = self._Y[t-1]'),
+    'function': dict(name='exp', type=Type.FUNCTION, lags=None, leads=None, equation=None, code=None),
+}
+
+
+def built_edge_lists(rng, n_random):
+    """Hand-built symbol lists (the neighbourhood of the parser's output): every string of EDGE_ALPHABET in every str
+    field of a verbatim / endogenous / function symbol, alone, next to rows where that field is None (mixed column,
+    either order), next to another str, duplicated, and with the OTHER str fields None (all-missing columns);
+    every ordered pair of EDGE_SMALL in one column; random lists with every str field drawn from the alphabet or None."""
+    out = []
+    for tname, tpl in EDGE_TEMPLATES.items():
+        for f in STR_FIELDS:
+            for k, a in enumerate(EDGE_ALPHABET):
+                other = EDGE_ALPHABET[(k + 5) % len(EDGE_ALPHABET)]
+                for bare_others in (False, True):
+                    base = dict(tpl)
+                    if bare_others:
+                        for g in STR_FIELDS:
+                            if g != f:
+                                base[g] = None
+                    S = _sym(base, **{f: a})
+                    N = _sym(base, **{f: None})
+                    T = _sym(base, **{f: other})
+                    for shape, ss in (('alone', [S]), ('then-none', [S, N]), ('none-then', [N, S]), ('then-str', [S, T]),
+                                      ('none-both-sides', [N, S, N]), ('twice', [S, S])):
+                        out.append((ss, f'built:{tname}:{f}:{shape}' + (':others-none' if bare_others else '')))
+    for f in STR_FIELDS:
+        for a in EDGE_SMALL:
+            for b in EDGE_SMALL:
+                tpl = EDGE_TEMPLATES['verbatim' if f != 'name' else 'endogenous']
+                out.append(([_sym(tpl, **{f: a}), _sym(tpl, **{f: b})], f'built:pair:{f}'))
+    pool = EDGE_ALPHABET + [None] * 6
+    for _ in range(n_random):
+        ss = []
+        for _ in range(rng.choice([1, 2, 2, 3, 4, 6])):
+            t = rng.choice([Type.VERBATIM, Type.ENDOGENOUS, Type.EXOGENOUS, Type.FUNCTION, Type.KEYWORD, Type.PARAMETER])
+            ss.append(Symbol(name=rng.choice(pool), type=t, lags=rng.choice([None, None, 0, -1, -3]),
+                             leads=rng.choice([None, None, 0, 2]), equation=rng.choice(pool), code=rng.choice(pool)))
+        out.append((ss, 'built:random'))
+    return out
+
+
+def run_symbols(ctx, rep, scripts, n_sub, n_edge_scripts=0, n_built=0):
     rng = ctx.sub_rng('symbols')
-    lists = symbol_lists(rng, scripts, n_sub)
+    erng = ctx.sub_rng('symbols-edge')
+    escripts = edge_scripts(erng, n_edge_scripts)
+    lists = symbol_lists(rng, list(scripts) + escripts, n_sub, built_edge_lists(erng, n_built))
+    rep.dist['symbols-edge:scripts-tried'] += len(escripts)
     rows = []
     for ss, case, in_q in lists:
         back, exc = symbol_round_trip(ss)
         if in_q:
             r = oracle_symbols(ss, back, exc, rep, case)
             rep.dist['symbols:' + ('ok' if r == 'ok' else r)] += 1
+        origin = {'symbols': 'parser', 'symbols-built': 'built', 'symbols-sub': 'sub'}[case['kind']]
+        ek = edge_kinds(ss)
+        if ek:
+            # only lists that really carry '' / edge whitespace in a str field are counted here
+            rep.dist[f'symbols-edge:{origin}:lists'] += 1
+            for k in ek:
+                rep.dist[f'symbols-edge:{origin}:{k}'] += 1
+        if origin == 'built':
+            rep.dist['symbols-built:' + case['origin'].split(':')[1]] += 1
         kinds = {int(s.type) for s in ss}
         for t in kinds:
             rep.dist['symbol-type:%d' % t] += 1
         for sh in symbols_shape(ss):
             rep.dist['symbols-column:' + sh] += 1
         rep.case(repr(ss), nontrivial=bool(ss),
-                 sample={'script': case['script'], 'n': len(ss), 'back': repr(back)[:200]} if rep.evaluations % 211 == 0 else None)
+                 sample={'script': case.get('script', case.get('origin')), 'n': len(ss), 'back': repr(back)[:200]}
+                 if rep.evaluations % 211 == 0 else None)
         if exc is not None:
             impl = 'raises'
         elif isinstance(back, list) and all(isinstance(b, Symbol) for b in back):
@@ -915,7 +1109,8 @@ def run(ctx, rep):
         rng = ctx.sub_rng('symscripts')
         for _ in range((900 if quick else 8000) * ctx.scale):
             extra.append(gen_script(rng))
-        run_symbols(ctx, rep, scripts + extra, n_sub)
+        run_symbols(ctx, rep, scripts + extra, n_sub, n_edge_scripts=(400 if quick else 4000) * ctx.scale,
+                    n_built=(1500 if quick else 20000) * ctx.scale)
         run_probes(ctx, rep)
     rep.notes.append(f'models {n_models}, linkers {n_linkers}, symbol scripts {len(scripts) + len(extra)} (+{n_sub} sub-lists)')
 
@@ -926,7 +1121,7 @@ def replay(ctx, rep, case):
     kind = case.get('kind')
     with warnings.catch_warnings():
         warnings.simplefilter('ignore')
-        if kind in ('symbols', 'symbols-sub'):
+        if kind in ('symbols', 'symbols-sub', 'symbols-built'):
             if kind == 'symbols':
                 ss = fsic.parse_model(case['script'])
             else:
